@@ -7,6 +7,12 @@ TB = ('Coq 8.16.1 kernel (coqc, full .vo builds, vm_compute; no native_compute);
       'the correspondence harness (g++ 12 -O1, ASan+UBSan+float-cast-overflow, exact-size heap buffers) and its generators; the hand-written model is tied to /repo/src by that correspondence, '
       'which is differential testing. ')
 CLAIMED = {
+ 'C18': dict(text='Theorems for every message history about a Gallina model of tN2kDeviceList (object-id heap with explicit freed state): no use of a freed entry, no index outside Sources[] (the C07 half); at most one entry '
+                  'per non-zero NAME; by-NAME and by-source look-ups agree with an abstract NAME->address mirror for every undisplaced NAME; PGN lists and (ASCII) configuration information are reported back, the updated flag is '
+                  'raised on every change; the product-information clause is refuted for the parked-device history (known finding) and proved without it.  Model tied to the C++ by correspondence on message histories.',
+             note=TB + 'Known finding parked-device (machine-checked refutation C18_info_prod_refuted + replay).  Request pacing is compared model-vs-code but its clock-origin dependence (D-20) is reported under C13.  '
+                  'UCS-2 configuration strings and product-string extraction are tied by correspondence only; LP64 build.',
+             design='6 C18', technique='Coq proof over executable model + extracted-model/implementation correspondence'),
  'C14': dict(text='Theorems for every history of create/attach/detach/destroy over two bus objects: the pointer-list model of AttachMsgHandler/DetachMsgHandler keeps both lists sorted, duplicate-free and consistent with each '
                   'handler\'s bus; RunMessageHandlers calls the callback once and exactly the attached handlers with PGN 0 or the message PGN, each once (refinement to a finite-map machine, plus the call order); destroyed or '
                   'detached handlers are never called; re-attaching moves.  Model, abstract machine and C++ compared on exhaustive bounded histories and random long ones.',
